@@ -821,6 +821,11 @@ class World:
         expect_fail = (not s_ok) or bool(ev.get("kf"))
         if s_ok and out_arr is None:
             sout = np.asarray(sout)
+            if any(sout is x for x in sargs):
+                # NumPy handed back the operand array itself (squeeze with nothing to squeeze): the
+                # result is a distinct tensor on MyGrad's side, so the shadow is a distinct view too
+                # (otherwise `.shape = ...` on one shadow would silently reshape the other)
+                sout = sout.view()
             if forced is False and not is_float(sout.dtype) and self.tracking:
                 expect_fail = True
         rargs = [self.real(r) for r in refs]
